@@ -275,7 +275,8 @@ func runCopy(c c15Case, srcDir, dstDir string) error {
 func judgeC15(c c15Case) (string, string) {
 	root := scratch.Dir("ov")
 	defer scratch.Remove(root)
-	srcDir, dstDir := filepath.Join(root, "src"), filepath.Join(root, "dst")
+	// the roots carry pattern metacharacters in their own names: only what lies below a root is ever matched
+	srcDir, dstDir := filepath.Join(root, "s[1]rc"), filepath.Join(root, "d[s]t*")
 	os.Mkdir(srcDir, 0755)
 	os.Mkdir(dstDir, 0755)
 	if err := fsmodel.Materialize(c.Src, srcDir); err != nil {
